@@ -330,7 +330,7 @@ class World:
         if op == 'group-add' and obs == 'ok':
             g = self.groups.get(int(toks[1])); r = self.routers.get(int(toks[2]))
             if g is not None and r is not None:
-                r.use += g['use']; g['routers'].append(int(toks[2]))
+                r.use += g['use']; g['routers'].append(int(toks[2])); g.setdefault('matchers', {})[int(toks[2])] = toks[3]
             return
         if op == 'group-new' and obs == 'ok':
             g = self.groups.get(int(toks[1]))
@@ -338,7 +338,7 @@ class World:
                 c = g['cfg']
                 rt = ['router', toks[2], toks[3], c[3], '0', c[2], c[4], c[5], c[6], c[7], c[8], c[9], c[10], c[11]]
                 r = RouterSpec(rt); r.use += g['use']
-                self.routers[int(toks[2])] = r; g['routers'].append(int(toks[2]))
+                self.routers[int(toks[2])] = r; g['routers'].append(int(toks[2])); g.setdefault('matchers', {})[int(toks[2])] = toks[4]
             return
         if op == 'group-use':
             g = self.groups.get(int(toks[1]))
@@ -994,8 +994,11 @@ def judge_c13(ops, impl):
             names = decL(obs[6:])
             if len(set(names)) != len(names):
                 bad.append((i, 'router names are not unique: %r' % names))
-        if toks[0] == 'group-remove':
-            pass
+            g = w.groups.get(int(toks[1]))
+            if g is not None:
+                want = [w.routers[rid].name for rid in g['routers'] if rid in w.routers]
+                if names != want:
+                    bad.append((i, 'routers of the group are %r, the history of Add/New/Remove leaves %r in that order' % (names, want)))
         if toks[0] != 'gserve' or not obs.startswith('call '):
             continue
         f = fields(obs)
@@ -1004,6 +1007,24 @@ def judge_c13(ops, impl):
             continue
         path = decB(toks[3])
         names = [w.routers[rid].name for rid in g['routers'] if rid in w.routers]
+        # the first router, in the order added, whose matcher accepts (decidable here for hosts-free matchers)
+        hdrs = dict(decM(toks[5])); mp = None if toks[6] == '%!' else dict(decM(toks[6]))
+        first = 'unknown'
+        for rid in g['routers']:
+            expr = g.get('matchers', {}).get(rid)
+            if expr is None or 'hosts:' in expr or rid not in w.routers:
+                break
+            try:
+                ok, _, _ = eval_matcher(expr, path, hdrs.get(b'Accept', b''), mp, {})
+            except Exception:
+                break
+            if ok:
+                first = w.routers[rid].name; break
+        else:
+            first = None
+        served = None if (f['base'] == 'groupNotFound' and f['router'] == '%_') else decB(f['router'])
+        if first != 'unknown' and served != first:
+            bad.append((i, 'served by %r, but the first router in the order added whose matcher accepts is %r (routers %r)' % (served, first, names)))
         if f['base'] == 'groupNotFound' and f['router'] == '%_':
             if decB(f['path']) != path or f['params'] != '%-':
                 bad.append((i, 'no router accepted, but the request reached the not-found handler as path=%s params=%s' % (f['path'], f['params'])))
